@@ -24,7 +24,7 @@ pub fn render_tree(case: &Case, tree: &Tree, const_payload: bool) -> String {
             let (ty, variant) = &case.rendered.names.constructors[p];
             let name = variant.clone().unwrap_or_else(|| ty.clone());
             let style = &case.pres.styles[p];
-            let used: Vec<usize> = (0..kids.len()).filter(|i| style.skip_mask >> i & 1 == 0).collect();
+            let used: Vec<usize> = (0..kids.len()).filter(|i| !style.skipped(*i)).collect();
             if used.is_empty() {
                 return name;
             }
@@ -52,7 +52,7 @@ fn leaf_positions(case: &Case, tree: &Tree, used: &mut Vec<usize>, skipped: &mut
         Tree::Node(p, kids) => {
             let style = &case.pres.styles[*p as usize];
             for (i, k) in kids.iter().enumerate() {
-                leaf_positions(case, k, used, skipped, is_skipped || style.skip_mask >> i & 1 == 1);
+                leaf_positions(case, k, used, skipped, is_skipped || style.skipped(i));
             }
         }
     }
@@ -132,6 +132,15 @@ pub fn collect(specs: &[Spec], depth_deep: bool, extra_presentations: u64) -> (V
                         let (gr, mut pres) = (c.g.clone(), c.pres.clone());
                         pres.names.retain(|k, _| !(k.starts_with('p') || k.starts_with('a')));
                         add_with(gr, pres, &mut out, &mut n);
+                    }
+                }
+            }
+            Spec::Scaled { deep } => {
+                for (i, f) in crate::scaled::families(*deep).iter().enumerate() {
+                    n += 1;
+                    let case = Case::new(f.g.clone(), with_debug(crate::scaled::presentation(f, i)));
+                    if let Gen::Ok(text) = generate(&case.rendered.source) {
+                        out.push(RealCase { case, text, depth: f.depth });
                     }
                 }
             }
